@@ -253,7 +253,9 @@ def h11a(c, K=3, async_place=False, on_world=None, epilogue_fill=False):
                     c.cover("snapshot")
                 elif act == "stale-snapshot":
                     if old_snapshots:
-                        fl._process_current_orders(cm.current_orders_event(client, old_snapshots[0]))
+                        # the snapshot published last is delivered again: it may be stale by now (the exchange has moved on), it is never OLDER
+                        # than what was already processed - the stream and the handler queue keep publications in order
+                        fl._process_current_orders(cm.current_orders_event(client, old_snapshots[-1]))
                         c.cover("stale-snapshot")
         # ---- quiescence: every outstanding answer is delivered, then the latest snapshot (twice: duplicates are harmless)
         with c.guard("quiescence"):
